@@ -373,6 +373,8 @@ class Ctx:
 
 
 def write_replay(pid, seed, n, obj):
+    obj = dict(obj, seed=seed, tier=os.environ.get("VERIF_TIER_EFFECTIVE", "quick"),
+               replay_cmd="./check %s --replay <this file>" % pid)
     d = os.path.join(VERIF, "replays", pid)
     os.makedirs(d, exist_ok=True)
     p = os.path.join(d, "%d-%d.json" % (seed, n))
@@ -384,8 +386,16 @@ def run_check(chk, tier, replay=None):
     t0 = time.time()
     pid = chk.pid
     seed = int(os.environ.get("VERIF_SEED", "1") or "1")
+    if replay:
+        try:
+            seed = int(json.load(open(replay)).get("seed", seed))
+            tier = json.load(open(replay)).get("tier", tier)
+        except Exception:
+            pass
+    chk.replaying = bool(replay)
     rng = random.Random(seed * 1000003 + int(hashlib.sha256(pid.encode()).hexdigest()[:8], 16))
     thorough = tier == "thorough"
+    os.environ["VERIF_TIER_EFFECTIVE"] = tier
     violations = []       # (replay path, suffix)
     known_lines = []
     notes = []
@@ -417,8 +427,17 @@ def run_check(chk, tier, replay=None):
     chk.ctx = ctx
     chk.impl_query = lambda ls: run_impl(bins[chk.profiles[0]], ls, timeout=chk.impl_timeout)
     if replay:
+        # re-run exactly the recorded input(s): the generator is run with the recorded seed so that checks whose oracle
+        # carries per-case expectations have them, then the stream is cut down to the recorded line(s)
         obj = json.load(open(replay))
-        cases = [Case(l) for l in obj.get("lines", [obj.get("line")]) if l]
+        wanted = [l for l in obj.get("lines", [obj.get("line")]) if l]
+        try:
+            allc = chk.gen(tier, rng)
+        except Exception:
+            allc = []
+        cases = [c for c in allc if c.line in set(wanted)]
+        have = set(c.line for c in cases)
+        cases += [Case(l) for l in wanted if l not in have]
     else:
         cases = chk.gen(tier, rng)
     lines = [c.line for c in cases]
@@ -574,5 +593,7 @@ def write_evidence(chk, tier, seed, pr, cases, impl, model, extra, nviol, wall, 
           "wall_s": round(wall, 2), "violations": nviol}
     # evidence of record comes only from runs against /repo itself; experiments on a scratch copy write elsewhere
     evdir = os.path.join(VERIF, "evidence") if REPO == "/repo" else os.path.join(BUILD, "evidence-alt")
+    if getattr(chk, "replaying", False):
+        evdir = os.path.join(BUILD, "evidence-replay")      # a replay is not a run of record
     os.makedirs(evdir, exist_ok=True)
     json.dump(ev, open(os.path.join(evdir, chk.pid + ".json"), "w"), indent=1)
